@@ -90,6 +90,9 @@ func (h *killedHandler) cleanupIfNotRestarting() {
 
 	h.ctx.EventStream().UnsubscribeAll(h.ctx)
 	h.ctx.system.removeActorContext(h.ctx)
+	// 因故障被暂停后直接被停止的 Actor，其邮箱中滞留的用户消息再也不会有人恢复：
+	// 终止时恢复邮箱，让它们按已终止 Actor 的常规路径成为死信，而不是悄悄丢失。
+	h.ctx.mailbox.Resume()
 
 	// 通知所有监听者
 	for _, watcher := range h.ctx.watchers {
